@@ -22,7 +22,6 @@ import (
 	"runtime"
 	"runtime/debug"
 	"strings"
-	"sync"
 
 	"github.com/nspcc-dev/neo-go/pkg/vm/opcode"
 
@@ -35,6 +34,10 @@ type lineRec struct {
 	family string
 	op     string
 	obs    string
+	refs   int // VerifRefs() of the real VM after Run
+	halt   bool
+	fault  bool
+	marker bool // a "case k" line: no driver round trip
 }
 
 var (
@@ -44,7 +47,9 @@ var (
 
 // emit runs one script line of case k on the real VM (twice) and records it.
 func emit(k int, c *vcase) vres {
+	trace = true
 	r1 := execReal(c)
+	trace = false
 	r2 := execReal(c)
 	if r1.obs != r2.obs || r1.gas != r2.gas {
 		o.Fail("nondeterministic", k, "two runs differ: %q vs %q (%s)", r1.obs, r2.obs, c.opLine())
@@ -58,13 +63,15 @@ func emit(k int, c *vcase) vres {
 		}
 		if n, cyc := walkRefs(r1.stack); !cyc && n != r1.refs {
 			o.Count("refs!=reach(acyclic)")
+			if os.Getenv("VMOPS_DEBUG") != "" {
+				fmt.Fprintf(os.Stderr, "REFS refs=%d walk=%d %s => %s\n", r1.refs, n, c.opLine(), r1.obs)
+			}
 		} else if cyc {
 			o.Count("result:cyclic")
 		}
 	}
 	op := c.opLine()
-	o.Line(op, r1.obs)
-	pipe.send(lineRec{k: k, family: c.family, op: op, obs: r1.obs})
+	pipe.send(lineRec{k: k, family: c.family, op: op, obs: r1.obs, refs: r1.refs, halt: r1.halt, fault: r1.fault})
 	switch {
 	case r1.halt:
 		o.Count("outcome:HALT")
@@ -96,7 +103,7 @@ func main() {
 	pipe = startSpecPipe()
 
 	corpus := buildCorpus()
-	nGen := f.N(60000, 3000000)
+	nGen := f.N(60000, 2000000)
 	total := len(corpus) + nGen
 	exh := 0
 	if f.Tier == "thorough" {
@@ -109,7 +116,7 @@ func main() {
 		}
 		r := prng.ForCase(f.Seed, k)
 		g := &gen{r: r}
-		o.Case(k)
+		pipe.send(lineRec{k: k, marker: true})
 		var c *vcase
 		var ints []*big.Int
 		var iop opcode.Opcode
@@ -128,6 +135,10 @@ func main() {
 			o.Count("gen:seq3-exhaustive")
 		default:
 			switch w := r.Intn(100); {
+			case w < 2:
+				g.convLines(k)
+				o.Count("gen:conversion.go")
+				continue
 			case w < 30:
 				sp := opSpecs[(k-len(corpus))%len(opSpecs)]
 				c = g.singleOp(sp)
@@ -146,9 +157,15 @@ func main() {
 			case w < 63:
 				c = g.equalCase()
 				o.Count("gen:equal")
-			case w < 70:
+			case w < 68:
 				c = g.heapCase()
 				o.Count("gen:heap")
+			case w < 70:
+				c = g.mapCase()
+				o.Count("gen:map")
+			case w < 73:
+				c = g.slotCase()
+				o.Count("gen:slots")
 			case w < 75:
 				c = g.seqCase(r.Range(1, 3))
 				o.Count("gen:seq<=3")
@@ -204,6 +221,23 @@ func main() {
 		}
 	}
 	pipe.finish()
+	never, neverFault := 0, 0
+	for i := 0; i < 256; i++ {
+		op := opcode.Opcode(i)
+		if !opcode.IsValid(op) {
+			continue
+		}
+		o.Add("exec-ok:"+op.String(), execOK[i])
+		o.Add("exec-fault:"+op.String(), execFault[i])
+		if execOK[i] == 0 {
+			never++
+		}
+		if execFault[i] == 0 {
+			neverFault++
+		}
+	}
+	o.Add("coverage:opcodes-never-completed", never)
+	o.Add("coverage:opcodes-never-faulting", neverFault)
 }
 
 // specPipe streams the generated op lines through the Lean driver while the cases are produced and
@@ -215,51 +249,89 @@ type specPipe struct {
 	inRaw   interface{ Close() error }
 	pending chan lineRec
 	done    chan struct{}
-	mu      sync.Mutex
-	mism    []string
-	mismK   []int
-	mismFam []string
-	n       int
+	mism     []string
+	mismK    []int
+	mismFam  []string
+	n        int
+	excluded int
+	short    bool
 }
 
 func startSpecPipe() *specPipe {
+	p := &specPipe{pending: make(chan lineRec, 1<<14), done: make(chan struct{})}
 	drv := os.Getenv("VERIF_DRIVER")
 	if drv == "" {
 		wd, _ := os.Getwd()
 		drv = filepath.Join(wd, "..", "lean", ".lake", "build", "bin", "drv_vmops")
 	}
+	var sc *bufio.Scanner
 	if _, err := os.Stat(drv); err != nil {
 		o.Count("specdiff:driver-missing")
-		return nil
+	} else {
+		cmd := exec.Command(drv)
+		stdin, err1 := cmd.StdinPipe()
+		stdout, err2 := cmd.StdoutPipe()
+		if err1 != nil || err2 != nil || cmd.Start() != nil {
+			o.Count("specdiff:driver-error")
+		} else {
+			p.cmd, p.in, p.inRaw = cmd, bufio.NewWriterSize(stdin, 1<<16), stdin
+			sc = bufio.NewScanner(stdout)
+			sc.Buffer(make([]byte, 1<<20), 1<<28)
+		}
 	}
-	cmd := exec.Command(drv)
-	stdin, err1 := cmd.StdinPipe()
-	stdout, err2 := cmd.StdoutPipe()
-	if err1 != nil || err2 != nil || cmd.Start() != nil {
-		o.Count("specdiff:driver-error")
-		return nil
-	}
-	p := &specPipe{cmd: cmd, in: bufio.NewWriterSize(stdin, 1<<16), inRaw: stdin,
-		pending: make(chan lineRec, 1<<14), done: make(chan struct{})}
+	// the reader goroutine owns o.Line / o.Case: it writes every line of the correspondence
+	// stream in order, after the specification's answer for it has arrived.
 	go func() {
 		defer close(p.done)
-		sc := bufio.NewScanner(stdout)
-		sc.Buffer(make([]byte, 1<<20), 1<<28)
 		reported := map[int]bool{}
-		for sc.Scan() {
-			l, ok := <-p.pending
-			if !ok {
-				return
+		for l := range p.pending {
+			if l.marker {
+				o.Case(l.k)
+				continue
+			}
+			if sc == nil || !sc.Scan() {
+				if sc != nil {
+					p.short = true
+					sc = nil
+				}
+				o.Line(l.op, l.obs)
+				continue
 			}
 			p.n++
 			m := strings.TrimRight(sc.Text(), "\r\n")
-			if m != l.obs && !reported[l.k] {
+			// extended answer: "<observation> | refs=<n> cyc=<0|1>"
+			specRefs, cyc := -1, false
+			if i := strings.LastIndex(m, " | refs="); i >= 0 {
+				var c int
+				fmt.Sscanf(m[i:], " | refs=%d cyc=%d", &specRefs, &c)
+				cyc = c == 1
+				m = m[:i]
+			}
+			key := ""
+			switch {
+			case m != l.obs && l.fault && cyc && l.refs > 2048:
+				// the real VM counts unreachable cyclic garbage and faults with "stack is too big"
+				key = "refcount-cyclic-garbage"
+			case m != l.obs:
+				key = "specdiff:" + l.family
+			case l.halt && !cyc && specRefs >= 0 && specRefs != l.refs:
+				// same outcome, but the VM's item counter differs from the number of reachable
+				// references although no cycle was ever built
+				key = "refcount-acyclic"
+			}
+			if key == "refcount-cyclic-garbage" {
+				// known divergence of the implementation from the specification (see known-findings):
+				// reported by the oracle, kept out of the model/implementation correspondence
+				o.Line(fmt.Sprintf("skip %d", l.k), fmt.Sprintf("skip %d", l.k))
+				p.excluded++
+			} else {
+				o.Line(l.op, l.obs)
+			}
+			if key != "" && !reported[l.k] {
 				reported[l.k] = true
-				p.mu.Lock()
 				p.mismK = append(p.mismK, l.k)
-				p.mismFam = append(p.mismFam, l.family)
-				p.mism = append(p.mism, fmt.Sprintf("real VM: %s | specification: %s | %s", trunc(l.obs), trunc(m), trunc(l.op)))
-				p.mu.Unlock()
+				p.mismFam = append(p.mismFam, key)
+				p.mism = append(p.mism, fmt.Sprintf("real VM: %s (refs %d) | specification: %s (refs %d, cycle built: %v) | %s", trunc(l.obs), l.refs, trunc(m), specRefs, cyc, trunc(l.op)))
 			}
 		}
 	}()
@@ -267,27 +339,34 @@ func startSpecPipe() *specPipe {
 }
 
 func (p *specPipe) send(l lineRec) {
-	if p == nil {
-		return
+	if p.in != nil && !l.marker {
+		if strings.HasPrefix(l.op, "run ") {
+			p.in.WriteString("runx") // extended answer (reference count, cycles) for the oracles
+			p.in.WriteString(strings.TrimPrefix(l.op, "run"))
+		} else {
+			p.in.WriteString(l.op)
+		}
+		p.in.WriteByte('\n')
 	}
-	p.in.WriteString(l.op)
-	p.in.WriteByte('\n')
 	p.pending <- l
 }
 
 func (p *specPipe) finish() {
-	if p == nil {
-		return
+	if p.in != nil {
+		p.in.Flush()
+		p.inRaw.Close()
 	}
-	p.in.Flush()
-	p.inRaw.Close()
+	close(p.pending)
 	<-p.done
-	p.cmd.Wait()
+	if p.cmd != nil {
+		p.cmd.Wait()
+	}
 	for i := range p.mism {
-		o.Fail("specdiff:"+p.mismFam[i], p.mismK[i], "%s", p.mism[i])
+		o.Fail(p.mismFam[i], p.mismK[i], "%s", p.mism[i])
 	}
 	o.Add("specdiff:lines", p.n)
-	if len(p.pending) != 0 {
+	o.Add("tie-excluded:refcount-cyclic-garbage", p.excluded)
+	if p.short {
 		o.Count("specdiff:driver-short-output")
 	}
 }
